@@ -500,6 +500,10 @@ def phase(test):
   test.logger.info('m#5 dev aa:bb:cc:dd:ee:ff own')
   logging.getLogger('openhtf.plugs.verif_driver').info('m#6 dev %s framework', 'aa:bb:cc:dd:ee:ff')
   logs.get_record_logger_for(list(htf.Test.TEST_INSTANCES)[0]).warning('m#7 dev aa:bb:cc:dd:ee:ff helper')
+  try:
+    raise ValueError('device aa:bb:cc:dd:ee:ff unreachable')
+  except ValueError:
+    test.logger.exception('m#8 connect failed')      # the captured message carries the traceback text
 t = htf.Test(phase)
 recs = []
 t.add_output_callbacks(recs.append)
@@ -535,11 +539,12 @@ def _run_verbosity(case):
     return {'ops': [], 'obs': [], 'facts': ['X:verbosity-run-failed:' + p.stderr.decode('utf-8', 'replace')[-200:].replace(' ', '_').replace('\n', '|')]}
   got = json.loads(line[0][7:])
   want = ['m#1 debug own', 'm#2 info own', 'm#3 debug framework', 'm#4 debug helper']
-  facts = [] if got[:4] == want and len(got) == 7 else [
-      'X:record-misses-messages-under-cli-verbosity-%d:got-%d-of-7' % (case['v'], len(got))]
+  facts = [] if got[:4] == want and len(got) == 8 else [
+      'X:record-misses-messages-under-cli-verbosity-%d:got-%d-of-8' % (case['v'], len(got))]
   for m in got[4:]:
     if 'dd:ee:ff' in m or 'aa:bb:cc:<REDACTED>' not in m:
-      facts.append('X:mac-address-not-redacted-in-the-record-under-cli-verbosity-%d:%s' % (case['v'], m.split(' ')[-1]))
+      facts.append('X:mac-address-not-redacted-in-the-record-under-cli-verbosity-%d:%s' % (
+          case['v'], 'traceback-text' if m.startswith('m#8') else m.split(' ')[-1]))
   return {'ops': [], 'obs': [], 'facts': facts}
 
 
